@@ -39,6 +39,9 @@ pub fn menu_paths() -> Vec<JPath> {
         JPath(vec![Step::Root, Step::DotWild, Step::Filter(Box::new(Expr::Exists(vec![Step::Current, Step::Dot("a".into())])))]),
         JPath(vec![Step::Root, Step::BracketWild, Step::Dot("a".into())]),
         JPath(vec![Step::Root, Step::BracketWild, Step::BracketWild]),
+        // repeated and overlapping subscripts select an element once per mention
+        JPath(vec![Step::Root, Step::Indices(vec![AIdx::One(Idx::N(0)), AIdx::One(Idx::N(0))])]),
+        JPath(vec![Step::Root, Step::Indices(vec![AIdx::Slice(Idx::N(0), Idx::N(1)), AIdx::Slice(Idx::N(1), Idx::Last(0))])]),
         JPath(vec![Step::Predicate(Box::new(Expr::Cmp(Cmp::Gt, Box::new(Expr::Paths(vec![Step::Root, Step::Dot("a".into())])), Box::new(Expr::Lit(Lit::Num(RNum::U(0)))))))]),
     ]
 }
